@@ -13,7 +13,10 @@ def run(tier):
                 "realpath, abspath, relpath, copy2, rmtree, unlink, copytree; posixpath for path algebra); every effect is "
                 "logged; counterexamples are replayed on the real filesystem in a scratch directory"]
     r.assumptions += [
-        "base tree: in/{a.py,notes.txt,[sub/b.py],[link -> ../other]}, other/c.py, ws/w.py, f.py, /outside/o.py; cwd = base",
+        "base tree: in/{a.py,notes.txt,[sub/b.py],[link -> ../other]}, other/c.py, ws/w.py, f.py, /outside/o.py; cwd = base, "
+        "where base is /base or /old_lian_workspace_runs/base; a stale workspace holds old files and two symlinks pointing out of it",
+        "the workspace directory is where the option documents it: the option itself if it contains 'lian_workspace', else "
+        "<option>/lian_workspace (judged on the option as given)",
         "languages = python (.py); --nomock; no C preprocessing; not incremental",
         "bounded copying = at most 12 x (input paths + 12) filesystem effects and at most 600 filesystem calls",
     ]
@@ -27,11 +30,11 @@ def run(tier):
         w1s = [h.ABSENT, 0, 2]            # ws option: one component, or x/in, x/lian_workspace
         i1s = [h.ABSENT, 3]               # second input: none or "."
         for w0 in range(len(h.WS_COMPS)):
-            for wabs in (0, 1):
+            for wabs in (0, 1, 2, 3):
                 slices.append(dict(fix=dict(w0=[w0], wabs=[wabs], w1=w1s, i1=i1s, link=[1], stale=[1])))
     else:
         for w0 in range(len(h.WS_COMPS)):
-            for wabs in (0, 1):
+            for wabs in (0, 1, 2, 3):
                 for i0 in range(nin):
                     slices.append(dict(fix=dict(w0=[w0], wabs=[wabs], i0=[i0])))
     b.add("workspace x inputs x flags: effects confined to realpath(workspace), bounded, deletes only with --force", M,
